@@ -254,7 +254,7 @@ def r1 : Cand :=
 def r2 : Cand :=
   { (default : Cand) with src := src2.srcInfo g0, marker := 2, origin := some 0, segs := [⟨2, [65003, 300]⟩], ts := 2 }
 /-- "reject routes carrying 65533:1 toward peer 0", "add 65532:1 to everything else" -/
-def eNew : Pol := { stmts := [{ commSet := [tag], anyPeer := false, peers := [0], route := 2 },
+def eNew : Pol := { stmts := [{ commSet := some [tag], anyPeer := false, peers := [0], route := 2 },
                              { addComm := some 4294705153 }] }
 def eOld : Pol := {}
 
@@ -281,12 +281,19 @@ def rejPfx (es : List PfxEnt) : Pol := { stmts := [{ pfxSet := some es, route :=
 example : applyPol (rejPfx [⟨167772160, 8, 16, 16⟩, ⟨167772160, 8, 24, 24⟩]) 1 { r1 with pfx := 2 } = none := by
   decide
 example : (applyPol (rejPfx [⟨167772160, 8, 24, 24⟩]) 1 { r1 with pfx := 2 }).isSome = true := by decide
+/-- an EMPTIED community set: ANY matches nothing, INVERT everything, ALL nothing; an emptied
+    neighbor set matches every neighbour -/
+example : ({ commSet := some [], commOpt := 0 } : Stmt).matches 1 r1 = false ∧
+    ({ commSet := some [], commOpt := 2 } : Stmt).matches 1 r1 = true ∧
+    ({ commSet := some [], commOpt := 1 } : Stmt).matches 1 r1 = false ∧
+    ({ commSet := some [tag], commOpt := 1 } : Stmt).matches 1 r1 = true ∧
+    ({ anyPeer := false, peers := [], nbrOpt := 2 } : Stmt).matches 1 r1 = true := by decide
 /-- as-path-set members: `_300_` matches r2's path, `^65002_` its left-most AS does not -/
 example : (⟨0, 300⟩ : AspEnt).matchesPath (asSeqList r2.segs) = true ∧
     (⟨1, 65002⟩ : AspEnt).matchesPath (asSeqList r2.segs) = false := by decide
 /-- import side: r1 was accepted under the old import policy, the new one rejects it -/
 def fOld : Cand → Option Cand := fun c => applyPol eOld 1 c
-def fNew : Cand → Option Cand := fun c => applyPol { stmts := [{ commSet := [tag], route := 2 }] } 1 c
+def fNew : Cand → Option Cand := fun c => applyPol { stmts := [{ commSet := some [tag], route := 2 }] } 1 c
 example : BestPath.run ⟨true, false, false⟩ (hist [(.ann r1, fOld), (.ann r2, fOld)] ++ softOps fNew [r2, r1]) = [r2] := by
   decide
 example : BestPath.run ⟨true, false, false⟩ ([Ev.ann r1, Ev.ann r2].map (opOf fNew)) = [r2] := by decide
